@@ -154,6 +154,12 @@ def multi_fanout(R, ctx, rule, methods=('reopen_output', 'trigger_rotation')):
         fb = ctx.body(r'^writers::file_log_writer::FileLogWriter::rotate$')
         bad = None
         n = 0
+        # what `forced` is, whatever its representation (bool, private enum): NOT the value the record sink passes - with the sink's value the rotation
+        # is carried out iff rotation_necessary(), with any other value always (that meaning is decided by R01.2 / R08.1)
+        _sb, sink_rows_ = c01.sink_rows(ctx)
+        sink_vals = {e[1][-1] for r_ in sink_rows_ for e in r_.effects if re.search(MOUNT, e[0])}
+        if len(sink_vals) != 1:
+            raise CheckError(f"{rule}: the trigger value the record sink passes to the rotation is not unique ({sorted(sink_vals)})")
         for r in FDI(f, effects=[MOUNT], no_inline=[MOUNT], max_rows=2000).run(fb.path):
             if r.undecided:
                 raise CheckError(f"{rule}: FileLogWriter::rotate UNDECIDED {r.undecided}")
@@ -162,7 +168,7 @@ def multi_fanout(R, ctx, rule, methods=('reopen_output', 'trigger_rotation')):
             mounts = [e for e in r.effects if re.search(MOUNT, e[0])]
             if ok:
                 n += 1
-                if len(mounts) != 1 or mounts[0][1][-1] != 'True':
+                if len(mounts) != 1 or mounts[0][1][-1] in sink_vals:
                     bad = f"returns Ok after {len(mounts)} rotation request(s) with force = {[e[1][-1] for e in mounts]}"
         R.check(rule, f"{fb.path}|forced-rotation", not bad and n >= 1, "Ok only after exactly one forced rotation of the state", f"FileLogWriter::rotate {bad or 'has no successful row'}: "
                 "an explicitly triggered rotation does not rotate", where=fb.loc())
